@@ -253,6 +253,8 @@ fn feed_case(rounds: &[Round], now_lag: u8, intervals: &[u16], other_pair: u8, c
             Some(pp) if r.price % 4 == 0 => pp,
             // a price of exactly zero is a submission like any other
             _ if r.price % 16 == 5 => 0,
+            // prices in the upper range of the type: price x seconds no longer fits 128 bits (a query may refuse, not answer wrongly)
+            _ if r.price % 16 == 9 => 10u128.pow(37) + (r.price as u128) * 1_000_003,
             _ => 1 + r.price as u128,
         };
         pending.push((t, p));
@@ -454,7 +456,7 @@ impl Property for C18 {
         tier.pick(600_000, 6_000_000)
     }
     fn rule(&self) -> String {
-        "vAMM flavour (3/5 of the cases): generated reserves and block schedules (gaps 0 s .. 11 days, so that histories and query intervals longer than a week occur; block times with a sub-second fraction) with 0-4 swaps per block through the real entry points (one case in 300 cycles its block list up to about 300 blocks: a busy market with hundreds of snapshots inside one window); the harness records (block time, block-final spot) for every block with an accepted swap plus the creation entry; the owner's actions of C01 (market closed and re-opened, engine re-pointed, fee update) occur before 7-8% of the swaps; after each block TwapPrice{i} is queried for intervals shorter / equal / longer than the history, aligned with and just inside snapshot lifetimes: the answer must lie between the lowest and highest recorded price in effect in [now-i, now] (whole history if shorter), equal spot when the price did not change in the window, and agree (+-1) with the reference time-weighted mean over the block-final prices. Feed flavour: generated round sequences on the real price feed, submitted singly and in AppendMultiplePrice batches (non-decreasing timestamps incl. repeats, one round in four repeating the previous price, one in sixteen a price of exactly zero, not in the future; one feed case in 400 cycles its rounds up to about 800 submissions), in 7 of 8 cases with rounds of a second pair of the same feed submitted before or in between; GetTwapPrice within the bounds of the submissions overlapping the window, GetPrice = last submission, GetPreviousPrice{n} for n < rounds answers with exactly the (rounds-n)-th submission, and any successful answer for larger n would have to be a submitted round. Queries that error or panic give no value and are counted, not judged. Non-trivial: vAMM: a window starting strictly inside a snapshot's lifetime with >= 3 distinct prices in the history and a block with >= 2 swaps; feed: >= 3 submissions and a window overlapping different prices. Distinct by digest of the case.".into()
+        "vAMM flavour (3/5 of the cases): generated reserves and block schedules (gaps 0 s .. 11 days, so that histories and query intervals longer than a week occur; block times with a sub-second fraction) with 0-4 swaps per block through the real entry points (one case in 300 cycles its block list up to about 300 blocks: a busy market with hundreds of snapshots inside one window); the harness records (block time, block-final spot) for every block with an accepted swap plus the creation entry; the owner's actions of C01 (market closed and re-opened, engine re-pointed, fee update) occur before 7-8% of the swaps; after each block TwapPrice{i} is queried for intervals shorter / equal / longer than the history, aligned with and just inside snapshot lifetimes: the answer must lie between the lowest and highest recorded price in effect in [now-i, now] (whole history if shorter), equal spot when the price did not change in the window, and agree (+-1) with the reference time-weighted mean over the block-final prices. Feed flavour: generated round sequences on the real price feed, submitted singly and in AppendMultiplePrice batches (non-decreasing timestamps incl. repeats, one round in four repeating the previous price, one in sixteen a price of exactly zero, one in sixteen a price around 10^37, not in the future; one feed case in 400 cycles its rounds up to about 800 submissions), in 7 of 8 cases with rounds of a second pair of the same feed submitted before or in between; GetTwapPrice within the bounds of the submissions overlapping the window, GetPrice = last submission, GetPreviousPrice{n} for n < rounds answers with exactly the (rounds-n)-th submission, and any successful answer for larger n would have to be a submitted round. Queries that error or panic give no value and are counted, not judged. Non-trivial: vAMM: a window starting strictly inside a snapshot's lifetime with >= 3 distinct prices in the history and a block with >= 2 swaps; feed: >= 3 submissions and a window overlapping different prices. Distinct by digest of the case.".into()
     }
     fn assumptions(&self) -> Vec<String> {
         vec!["mock dependencies stand in for the chain; block times strictly increase".into()]
